@@ -2,15 +2,6 @@
 From CL Require Import Base.StrLemmas Model.Lexer Model.Parser Proofs.LexerProofs Proofs.ParserGates.
 From CL Require Import Model.Printer Proofs.RoundTrip Proofs.RoundTripComp.
 
-Lemma cur_after p : forall off al dn R ev, p <> [] ->
-  current_offset_of (St al (rev (place off p) ++ dn) R ev) = off + blen (unlex p).
-Proof.
-  induction p as [|t p0 _] using rev_ind; intros off al dn R ev H; [contradiction|].
-  rewrite place_app. cbn [place]. rewrite rev_unit. cbn [app]. unfold current_offset_of. cbn [b_done St].
-  unfold tend. cbn [tstart tstr]. rewrite unlex_app, blen_app.
-  change (unlex [t]) with (snd t ++ []). rewrite app_nil_r. lia.
-Qed.
-
 Lemma text_str_frags t : text_str t <> [] -> frags t <> [].
 Proof. unfold text_str. destruct (frags t); [intro H; contradiction H; reflexivity|discriminate]. Qed.
 
@@ -183,14 +174,127 @@ Section Blocks.
   Qed.
 End Blocks.
 
-Lemma cur_after' p o1 al dn R ev :
-  current_offset_of (St al dn [] []) = o1 ->
-  current_offset_of (St al (rev (place o1 p) ++ dn) R ev) = o1 + blen (unlex p).
-Proof.
-  intro H. destruct p as [|t p].
-  - cbn [place rev app]. unfold unlex; cbn [map concat blen]. rewrite N.add_0_r. exact H.
-  - apply cur_after. discriminate.
-Qed.
+(* ---------------------------------------------------------------- `>` text blocks *)
+Section TextBlock.
+  Variable cfg : pcfg.
+  Hypothesis Hstrict : p_strict_escape cfg = false.
+
+  Definition tl_head (l : tline) : list ptok := (if tl_marker l then [tstep_p] else []) ++ tl_ws l.
+
+  Lemma print_tline_split l : print_tline l = tl_head l ++ tl_toks l.
+  Proof. unfold print_tline, tl_head. rewrite <- app_assoc. reflexivity. Qed.
+
+  Lemma tline_head l o al dn ev X :
+    tline_ok l = true ->
+    bind (consume KTextStep) (fun g => match g with Some _ => bind (consume KWs) (fun _ => ret tt) | None => ret tt end)
+         (St al dn (place o (tl_head l) ++ place (o + blen (unlex (tl_head l))) (tl_toks l) ++ X) ev)
+    = Done (tt, St al (rev (place o (tl_head l)) ++ dn) (place (o + blen (unlex (tl_head l))) (tl_toks l) ++ X) ev).
+  Proof.
+    unfold tline_ok, tl_head. intro H. apply andb_true_iff in H as [H Hh]. apply andb_true_iff in H as [H Hnb].
+    assert (Htk : tl_toks l <> []).
+    { intro E. rewrite E in Hnb. discriminate. }
+    destruct (tl_toks l) as [|t0 tk] eqn:Et; [contradiction|].
+    destruct (tl_marker l).
+    - destruct (tl_ws l) as [|w [|w2 ws]]; [| |discriminate].
+      + cbn [app place fst snd tstep_p]. unfold bind at 1.
+        rewrite (consume_hit KTextStep {| kind := KTextStep; tstr := [62]; tstart := o |} _ al dn ev eq_refl). unfold bind at 1.
+        rewrite consume_miss; [reflexivity|]. unfold peek_of. cbn [b_rest St place app kind].
+        cbn [head_kind] in Hh. apply negb_true in Hh. exact Hh.
+      + apply andb_true_iff in Hh as [Hw _]. apply tk_eqb_eq in Hw.
+        cbn [app place fst snd tstep_p]. unfold bind at 1.
+        rewrite (consume_hit KTextStep {| kind := KTextStep; tstr := [62]; tstart := o |} _ al dn ev eq_refl). unfold bind at 1.
+        rewrite (consume_hit KWs {| kind := fst w; tstr := snd w; tstart := o + blen [62] |} _ al _ ev Hw). reflexivity.
+    - apply andb_true_iff in Hh as [Hw Hh]. destruct (tl_ws l); [|discriminate].
+      cbn [app place rev]. unfold bind at 1. rewrite consume_miss; [reflexivity|].
+      unfold peek_of. cbn [b_rest St place app kind]. cbn [head_kind] in Hh. apply negb_true in Hh. exact Hh.
+  Qed.
+
+  Lemma print_tlines_cons l l2 r : print_tlines (l :: l2 :: r) = print_tline l ++ nl_p :: print_tlines (l2 :: r).
+  Proof. reflexivity. Qed.
+
+  Lemma text_block_loop_print ls : forall fuel o al dn ev,
+    forallb tline_ok ls = true -> ls <> [] ->
+    (length (print_tlines ls) < fuel)%nat -> current_offset_of (St al dn [] []) = o ->
+    exists evs,
+      text_block_loop cfg fuel (St al dn (place o (print_tlines ls)) ev)
+      = Done (tt, St al (rev (place o (print_tlines ls)) ++ dn) [] (evs ++ ev)) /\
+      map ev_proj (rev evs) = denote_tlines ls.
+  Proof.
+    induction ls as [|l r IH]; intros fuel o al dn ev Hok Hne Hf Hcur; [contradiction|].
+    destruct fuel as [|f]; [lia|].
+    cbn [forallb] in Hok. apply andb_true_iff in Hok as [Hl Hr].
+    pose proof Hl as Hl'. unfold tline_ok in Hl'. apply andb_true_iff in Hl' as [Hl' _].
+    apply andb_true_iff in Hl' as [Hl' Hnb]. apply andb_true_iff in Hl' as [Hsh Hnn]. apply negb_true in Hnb.
+    set (o1 := o + blen (unlex (tl_head l))).
+    set (TK := place o1 (tl_toks l)).
+    assert (Hcur1 : forall R e, current_offset_of (St al (rev (place o (tl_head l)) ++ dn) R e) = o1)
+      by (intros; apply cur_after'; exact Hcur).
+    assert (Hnl : forallb (fun t => negb (tk_eqb (kind t) KNewline)) TK = true) by (apply no_kind_place; exact Hnn).
+    assert (HTKne : TK <> []).
+    { unfold TK. destruct (tl_toks l); [discriminate|discriminate]. }
+    destruct r as [|l2 r].
+    - (* last line *)
+      cbn [print_tlines] in *. rewrite print_tline_split, place_app. fold o1 TK.
+      assert (Hlen1 : (1 <= length (tl_toks l))%nat) by (destruct (tl_toks l); [discriminate|cbn; lia]).
+      rewrite print_tline_split, app_length in Hf.
+      cbn [text_block_loop]. unfold bind at 1, rest. cbn [b_rest St].
+      destruct (place o (tl_head l) ++ TK) as [|x0 xs] eqn:Ex; [destruct (place o (tl_head l)); [contradiction|discriminate]|].
+      rewrite <- Ex.
+      pose proof (tline_head l o al dn ev [] Hl) as Hh. fold o1 TK in Hh. rewrite app_nil_r in Hh.
+      unfold bind at 1. unfold bind at 1 in Hh.
+      destruct (consume KTextStep (St al dn (place o (tl_head l) ++ TK) ev)) as [[g sg]|] eqn:Eg; [|discriminate].
+      unfold bind at 1.
+      assert (Hh' : (match g with Some _ => bind (consume KWs) (fun _ => ret tt) | None => ret tt end) sg
+                    = Done (tt, St al (rev (place o (tl_head l)) ++ dn) TK ev)) by exact Hh.
+      rewrite Hh'. unfold bind at 1, current_offset. rewrite Hcur1. unfold bind at 1.
+      rewrite (consume_while_all (fun k => negb (tk_eqb k KNewline)) TK al _ ev Hnl).
+      unfold bind at 1. rewrite consume_miss by reflexivity.
+      destruct (text_of_place cfg Hstrict (tl_toks l) o1 Hsh) as (tx & Etx & Hstr & Hso & _). fold TK in Etx.
+      unfold bind at 1, textM, lift. rewrite Etx. rewrite (is_text_empty_str tx Hso), Hstr, Hnb.
+      unfold bind at 1, event. cbn [b_all b_done b_rest b_evs St]. unfold bind at 1, rest. cbn [b_rest].
+      assert (Hlt : (length (@nil tok) <? length (place o (tl_head l) ++ TK))%nat = true).
+      { rewrite Ex. reflexivity. }
+      rewrite Hlt. destruct f; [lia|]. cbn [text_block_loop]. unfold bind, rest, ret. cbn [b_rest].
+      exists [EvText tx]. split; [|cbn [rev app map ev_proj denote_tlines]; rewrite Hstr; reflexivity].
+      unfold St. do 3 f_equal. rewrite rev_app_distr. rewrite <- app_assoc. reflexivity.
+    - (* a line followed by more *)
+      rewrite print_tlines_cons in Hf |- *. rewrite print_tline_split in Hf |- *. rewrite <- app_assoc.
+      rewrite place_app, place_app. fold o1 TK. cbn [place fst snd nl_p].
+      set (o2 := o1 + blen (unlex (tl_toks l))).
+      set (NL := {| kind := KNewline; tstr := [10]; tstart := o2 |}).
+      set (REST := place (o2 + blen [10]) (print_tlines (l2 :: r))).
+      cbn [text_block_loop]. unfold bind at 1, rest. cbn [b_rest St].
+      destruct (place o (tl_head l) ++ TK ++ NL :: REST) as [|x0 xs] eqn:Ex; [destruct (place o (tl_head l)); destruct TK; discriminate|].
+      rewrite <- Ex.
+      pose proof (tline_head l o al dn ev (NL :: REST) Hl) as Hh. fold o1 TK in Hh.
+      unfold bind at 1. unfold bind at 1 in Hh.
+      destruct (consume KTextStep (St al dn (place o (tl_head l) ++ TK ++ NL :: REST) ev)) as [[g sg]|] eqn:Eg; [|discriminate].
+      unfold bind at 1.
+      assert (Hh' : (match g with Some _ => bind (consume KWs) (fun _ => ret tt) | None => ret tt end) sg
+                    = Done (tt, St al (rev (place o (tl_head l)) ++ dn) (TK ++ NL :: REST) ev)) by exact Hh.
+      rewrite Hh'. unfold bind at 1, current_offset. rewrite Hcur1. unfold bind at 1.
+      rewrite (consume_while_stop (fun k => negb (tk_eqb k KNewline)) TK NL REST al _ ev Hnl eq_refl).
+      unfold bind at 1. rewrite (consume_hit KNewline NL REST al _ ev eq_refl).
+      assert (Hsh2 : forallb shape_ok (tl_toks l ++ [nl_p]) = true) by (rewrite forallb_app, Hsh; reflexivity).
+      destruct (text_of_place cfg Hstrict (tl_toks l ++ [nl_p]) o1 Hsh2) as (tx & Etx & Hstr & Hso & _).
+      rewrite place_app in Etx. cbn [place fst snd nl_p] in Etx. fold TK o2 NL in Etx.
+      unfold bind at 1, textM, lift. rewrite Etx. rewrite (is_text_empty_str tx Hso), Hstr, toks_text_app, str_blank_app, Hnb.
+      cbn [andb]. unfold bind at 1, event. cbn [b_all b_done b_rest b_evs St]. unfold bind at 1, rest. cbn [b_rest].
+      assert (Hlt : (length REST <? length (place o (tl_head l) ++ TK ++ NL :: REST))%nat = true).
+      { apply Nat.ltb_lt. rewrite !app_length. cbn [length]. lia. }
+      rewrite Hlt.
+      fold (St al (NL :: rev TK ++ rev (place o (tl_head l)) ++ dn) REST (EvText tx :: ev)).
+      destruct (IH f (o2 + blen [10]) al (NL :: rev TK ++ rev (place o (tl_head l)) ++ dn) (EvText tx :: ev) Hr ltac:(discriminate))
+        as (evs & Hloop & Hevs).
+      + rewrite !app_length in Hf. cbn [length] in Hf. lia.
+      + reflexivity.
+      + fold REST in Hloop. rewrite Hloop. exists (evs ++ [EvText tx]). split.
+        * rewrite <- app_assoc. cbn [app]. unfold St. do 3 f_equal.
+          rewrite !rev_app_distr. cbn [rev]. rewrite <- !app_assoc. cbn [app]. reflexivity.
+        * rewrite rev_app_distr. cbn [rev app map ev_proj]. rewrite Hevs, Hstr, toks_text_app.
+          destruct (l2 :: r) eqn:E2; [discriminate|]. reflexivity.
+  Qed.
+End TextBlock.
 
 Section Blocks2.
   Variable cfg : pcfg.
@@ -257,7 +361,7 @@ Section Blocks2.
       map ev_proj (rev evs') = denote_block b.
   Proof.
     intros W Hsec. unfold block_ok in W. apply andb_true_iff in W as [_ W].
-    destruct b as [k v | n1 name n2 trail | items]; cbn [print_block denote_block].
+    destruct b as [k v | n1 name n2 trail | items | ls]; cbn [print_block denote_block].
     - apply andb_true_iff in W as [W Hvb]. apply andb_true_iff in W as [W Hkb].
       apply andb_true_iff in W as [W Hnc]. apply andb_true_iff in W as [Hk Hv]. apply negb_true in Hkb, Hvb.
       destruct (metadata_entry_print cfg Hstrict k v off evs Hk Hv Hnc Hkb Hvb) as (tk & tv & Hm & Htk & Htv).
@@ -311,6 +415,31 @@ Section Blocks2.
         rewrite Hts. change {| b_all := blk; b_done := []; b_rest := blk; b_evs := evs |} with (init_st blk evs). rewrite Hp. cbn [b_rest b_evs St].
         cbn [app]. rewrite <- app_assoc. reflexivity.
       + cbn [rev]. rewrite rev_app_distr. cbn [rev app map ev_proj]. rewrite map_app, He. reflexivity.
+    - apply andb_true_iff in W as [Hok Hfirst].
+      destruct ls as [|l0 lr] eqn:Els; [discriminate|]. rewrite <- Els in *.
+      assert (Hlne : ls <> []) by (rewrite Els; discriminate).
+      set (blk := place off (print_tlines ls)).
+      assert (Hhd : exists T R, blk = T :: R /\ kind T = KTextStep).
+      { unfold blk. rewrite Els. destruct lr; cbn [print_tlines]; unfold print_tline; rewrite Hfirst; cbn [app place kind fst tstep_p];
+          eexists _, _; split; reflexivity. }
+      destruct Hhd as (T & R & Eb & HkT).
+      destruct (text_block_loop_print cfg Hstrict ls (S (length blk)) off blk [] (EvStart false :: evs) Hok Hlne) as (evs' & Hl & He).
+      { unfold blk. rewrite place_length. lia. }
+      { unfold current_offset_of, base_offset. cbn [b_done b_all St]. rewrite Eb. unfold blk in Eb.
+        destruct (print_tlines ls); [discriminate|]. cbn [place] in Eb. inversion Eb. reflexivity. }
+      fold blk in Hl.
+      exists (EvEnd false :: evs' ++ [EvStart false]). split.
+      + unfold run_block. destruct blk as [|t0 blk'] eqn:Eb0; [discriminate|]. rewrite <- Eb0 in *.
+        assert (Hk0 : match blk with t :: _ => kind t | [] => KEof end = KTextStep) by (rewrite Eb; exact HkT).
+        assert (Hne2 : forallb (fun t => is_empty_tok (kind t)) blk = false) by (rewrite Eb; cbn [forallb]; rewrite HkT; reflexivity).
+        unfold parse_block, bind at 1, peek, peek_of. cbn [b_rest]. rewrite Hk0.
+        unfold bind at 1, ret at 1. unfold parse_multiline_block, bind at 1, all_tokens. cbn [b_all].
+        rewrite Hne2. unfold bind at 1, peek, peek_of. cbn [b_rest]. rewrite Hk0.
+        unfold parse_text_block, bind at 1, event. cbn [b_all b_done b_rest b_evs].
+        unfold bind at 1, rest. cbn [b_rest].
+        change {| b_all := blk; b_done := []; b_rest := blk; b_evs := EvStart false :: evs |} with (St blk [] blk (EvStart false :: evs)).
+        unfold bind at 1. rewrite Hl. cbn [b_all b_done b_rest b_evs St]. cbn [app]. rewrite <- app_assoc. reflexivity.
+      + cbn [rev]. rewrite rev_app_distr. cbn [rev app map ev_proj]. rewrite map_app, He. reflexivity.
   Qed.
 End Blocks2.
 
@@ -354,3 +483,198 @@ Section Docs.
     exists (rev (evs' ++ [])). split; [reflexivity|]. rewrite app_nil_r. exact Hp.
   Qed.
 End Docs.
+
+(* ---------------------------------------------------------------- the block cut *)
+Definition nlk (t : tok) : bool := tk_eqb (kind t) KNewline.
+Definition eline (e : list tok) : Prop := forallb (fun t => is_empty_tok (kind t) && negb (nlk t)) e = true.
+Definition line (L : list tok) : Prop :=
+  forallb (fun t => negb (nlk t)) L = true /\ forallb (fun t => is_empty_tok (kind t)) L = false.
+
+Inductive elines : list tok -> Prop :=
+| el_nil : elines []
+| el_cons e n T : eline e -> nlk n = true -> elines T -> elines (e ++ n :: T).
+
+(* lines of a multi-line block, each with its newline; no line starts with `>>` or `=` *)
+Inductive segs : list tok -> Prop :=
+| sg_nil : segs []
+| sg_cons L n S : line L -> nlk n = true -> is_single_line_marker L = false -> segs S -> segs (L ++ n :: S).
+
+Lemma pull_line_nl A n R : forallb (fun t => negb (nlk t)) A = true -> nlk n = true -> pull_line (A ++ n :: R) = (A ++ [n], R).
+Proof.
+  intros HA Hn. induction A as [|a A IH]; cbn [app pull_line forallb] in *.
+  - unfold nlk in Hn. rewrite Hn. reflexivity.
+  - apply andb_true_iff in HA as [Ha HA]. unfold nlk in Ha. apply negb_true in Ha. rewrite Ha, (IH HA). reflexivity.
+Qed.
+
+Lemma line_nonempty L : line L -> L <> [].
+Proof. intros [_ H] ->. discriminate. Qed.
+
+Lemma marker_app L X : L <> [] -> is_single_line_marker (L ++ X) = is_single_line_marker L.
+Proof. destruct L; [contradiction|reflexivity]. Qed.
+
+Lemma line_not_empty L n : line L -> line_is_empty (L ++ [n]) = false.
+Proof. intros [_ H]. unfold line_is_empty. rewrite forallb_app, H. reflexivity. Qed.
+
+Lemma eline_empty e n : eline e -> nlk n = true -> line_is_empty (e ++ [n]) = true.
+Proof.
+  intros He Hn. unfold line_is_empty. rewrite forallb_app. cbn [forallb]. unfold nlk in Hn. apply tk_eqb_eq in Hn. rewrite Hn.
+  cbn. rewrite andb_true_r. eapply forallb_impl; [|exact He]. intros x Hx. apply andb_true_iff in Hx as [Hx _]. exact Hx.
+Qed.
+
+Lemma eline_nonl e : eline e -> forallb (fun t => negb (nlk t)) e = true.
+Proof. apply forallb_impl. intros x Hx. apply andb_true_iff in Hx as [_ Hx]. exact Hx. Qed.
+
+Lemma eline_marker e n T : eline e -> nlk n = true -> is_single_line_marker (e ++ n :: T) = false.
+Proof.
+  intros He Hn. destruct e as [|x e]; cbn [app is_single_line_marker].
+  - unfold nlk in Hn. apply tk_eqb_eq in Hn. rewrite Hn. reflexivity.
+  - cbn [eline forallb] in He. unfold eline in He. cbn [forallb] in He. apply andb_true_iff in He as [Hx _].
+    apply andb_true_iff in Hx as [Hx _]. destruct (kind x); try discriminate; reflexivity.
+Qed.
+
+(* what follows a multi-line block: an empty line (it is consumed), a `>>`/`=` line, or the end *)
+Inductive after_multi : list tok -> list tok -> list tok -> Prop :=
+| am_empty e n SEP NEXT : eline e -> nlk n = true -> after_multi (e ++ n :: SEP) NEXT SEP
+| am_marker NEXT : is_single_line_marker NEXT = true -> after_multi [] NEXT []
+| am_end : after_multi [] [] [].
+
+Lemma more_lines_segs S : segs S -> forall SEP NEXT SEP' fuel,
+  after_multi SEP NEXT SEP' -> (length (S ++ SEP ++ NEXT) < fuel)%nat ->
+  more_lines fuel (S ++ SEP ++ NEXT) = (S, SEP' ++ NEXT).
+Proof.
+  induction 1 as [|L n S HL Hn Hm HS IH]; intros SEP NEXT SEP' fuel Ha Hf.
+  - cbn [app] in *. destruct fuel as [|f]; [lia|]. cbn [more_lines].
+    destruct Ha as [e n SEP NEXT He Hn | NEXT Hmk | ].
+    + rewrite <- app_assoc. cbn [app]. rewrite (eline_marker e n _ He Hn).
+      destruct (e ++ n :: SEP ++ NEXT) eqn:E; [destruct e; discriminate|]. rewrite <- E.
+      rewrite (pull_line_nl e n _ (eline_nonl e He) Hn), (eline_empty e n He Hn). reflexivity.
+    + cbn [app]. rewrite Hmk. reflexivity.
+    + reflexivity.
+  - destruct fuel as [|f]; [lia|].
+    assert (Hf' : (length (S ++ SEP ++ NEXT) < f)%nat).
+    { rewrite <- app_assoc in Hf. cbn [app] in Hf. rewrite app_length in Hf. cbn [length] in Hf. lia. }
+    cbn [more_lines]. rewrite <- app_assoc. cbn [app].
+    rewrite (marker_app L _ (line_nonempty L HL)), Hm.
+    destruct (L ++ n :: S ++ SEP ++ NEXT) eqn:E; [destruct L; discriminate|]. rewrite <- E.
+    rewrite (pull_line_nl L n _ (proj1 HL) Hn), (line_not_empty L n HL).
+    rewrite (IH SEP NEXT SEP' f Ha).
+    + rewrite <- app_assoc. reflexivity.
+    + exact Hf'.
+Qed.
+
+Lemma strip_block B n0 :
+  nlk n0 = true -> match rev B with t :: _ => nlk t = false | [] => False end ->
+  rev (strip_trailing_newlines (rev (B ++ [n0]))) = B.
+Proof.
+  intros Hn HB. rewrite rev_app_distr. cbn [rev app strip_trailing_newlines]. unfold nlk in Hn. rewrite Hn.
+  destruct (rev B) as [|t r] eqn:E; [contradiction|]. cbn [strip_trailing_newlines]. unfold nlk in HB. rewrite HB.
+  rewrite <- E. apply rev_involutive.
+Qed.
+
+Lemma next_block_skip EL : elines EL -> forall X fuel,
+  next_block (length EL + fuel) (EL ++ X) = next_block fuel X \/ True.
+Proof. intros; right; exact I. Qed.
+
+(* the block B, multi-line form: B ++ [n0] is a run of segs *)
+Lemma next_block_multi L1 n1 S B n0 SEP NEXT SEP' fuel :
+  B ++ [n0] = L1 ++ n1 :: S -> line L1 -> nlk n1 = true -> is_single_line_marker L1 = false -> segs S ->
+  nlk n0 = true -> match rev B with t :: _ => nlk t = false | [] => False end ->
+  after_multi SEP NEXT SEP' -> (length (B ++ n0 :: SEP ++ NEXT) < fuel)%nat ->
+  next_block fuel (B ++ n0 :: SEP ++ NEXT) = Some (B, SEP' ++ NEXT).
+Proof.
+  intros EB HL1 Hn1 Hm1 HS Hn0 HlB Ha Hf.
+  assert (Ets : B ++ n0 :: SEP ++ NEXT = L1 ++ n1 :: S ++ SEP ++ NEXT).
+  { change (n0 :: SEP ++ NEXT) with ([n0] ++ SEP ++ NEXT). rewrite app_assoc, EB, <- app_assoc. reflexivity. }
+  rewrite Ets in *. destruct fuel as [|f]; [lia|]. cbn [next_block].
+  destruct (L1 ++ n1 :: S ++ SEP ++ NEXT) eqn:E; [destruct L1; discriminate|]. rewrite <- E in *.
+  rewrite (pull_line_nl L1 n1 _ (proj1 HL1) Hn1), (line_not_empty L1 n1 HL1).
+  rewrite (marker_app L1 [n1] (line_nonempty L1 HL1)), Hm1.
+  rewrite (more_lines_segs S HS SEP NEXT SEP' _ Ha) by lia.
+  replace ((L1 ++ [n1]) ++ S) with (B ++ [n0]) by (rewrite EB, <- app_assoc; reflexivity).
+  rewrite (strip_block B n0 Hn0 HlB).
+  destruct B as [|b0 B']; [contradiction|]. reflexivity.
+Qed.
+
+(* single-line form: a `>>` or `=` line *)
+Lemma next_block_single B n0 REST fuel :
+  line B -> is_single_line_marker B = true -> nlk n0 = true ->
+  (length (B ++ n0 :: REST) < fuel)%nat ->
+  next_block fuel (B ++ n0 :: REST) = Some (B, REST).
+Proof.
+  intros HB Hm Hn0 Hf. destruct fuel as [|f]; [lia|]. cbn [next_block].
+  destruct (B ++ n0 :: REST) eqn:E; [destruct B; discriminate|]. rewrite <- E.
+  rewrite (pull_line_nl B n0 _ (proj1 HB) Hn0), (line_not_empty B n0 HB).
+  rewrite (marker_app B [n0] (line_nonempty B HB)), Hm.
+  assert (HlB : match rev B with t :: _ => nlk t = false | [] => False end).
+  { destruct HB as [HB1 HB2]. destruct (rev B) as [|tl rl] eqn:Er.
+    - apply (f_equal (@rev tok)) in Er. rewrite rev_involutive in Er. subst B. discriminate.
+    - assert (In tl B) by (apply in_rev; rewrite Er; left; reflexivity).
+      rewrite forallb_forall in HB1. apply negb_true. apply HB1. exact H. }
+  rewrite app_nil_r, (strip_block B n0 Hn0 HlB). destruct B; [contradiction|reflexivity].
+Qed.
+
+Lemma next_block_elines EL : elines EL -> forall X fuel,
+  (length (EL ++ X) < fuel)%nat ->
+  exists fuel', (length X < fuel')%nat /\ next_block fuel (EL ++ X) = next_block fuel' X.
+Proof.
+  induction 1 as [|e n T He Hn HT IH]; intros X fuel Hf.
+  - exists fuel. split; [exact Hf|reflexivity].
+  - destruct fuel as [|f]; [lia|].
+    assert (Hf' : (length (T ++ X) < f)%nat).
+    { rewrite <- app_assoc in Hf. cbn [app] in Hf. rewrite app_length in Hf. cbn [length] in Hf. lia. }
+    rewrite <- app_assoc. cbn [app next_block].
+    destruct (e ++ n :: T ++ X) eqn:E; [destruct e; discriminate|]. rewrite <- E.
+    rewrite (pull_line_nl e n _ (eline_nonl e He) Hn), (eline_empty e n He Hn).
+    apply IH. exact Hf'.
+Qed.
+
+(* the layout of a document, declaratively: blocks separated by empty (blank or comment-only) lines;
+   `>>` and `=` lines are blocks of one line and need no empty line around them; a multi-line
+   block (step, text) ends at an empty line, at a `>>`/`=` line or at the end of the text *)
+Inductive doc_toks : list tok -> list (list tok) -> Prop :=
+| dt_end EL : elines EL -> doc_toks EL []
+| dt_single EL B n0 REST bs :
+    elines EL -> line B -> is_single_line_marker B = true -> nlk n0 = true ->
+    doc_toks REST bs -> doc_toks (EL ++ B ++ n0 :: REST) (B :: bs)
+| dt_multi EL B n0 L1 n1 S SEP NEXT SEP' bs :
+    elines EL -> B ++ [n0] = L1 ++ n1 :: S -> line L1 -> nlk n1 = true -> is_single_line_marker L1 = false ->
+    segs S -> nlk n0 = true -> (match rev B with t :: _ => nlk t = false | [] => False end) ->
+    after_multi SEP NEXT SEP' -> doc_toks (SEP' ++ NEXT) bs ->
+    doc_toks (EL ++ B ++ n0 :: SEP ++ NEXT) (B :: bs).
+
+Lemma after_multi_len SEP NEXT SEP' : after_multi SEP NEXT SEP' -> (length (SEP' ++ NEXT) <= length (SEP ++ NEXT))%nat.
+Proof. destruct 1; rewrite ?app_length; cbn [length app]; rewrite ?app_length; cbn [length]; lia. Qed.
+
+Theorem blocks_doc ts bs : doc_toks ts bs -> forall fuel, (length ts < fuel)%nat -> blocks_f fuel ts = bs.
+Proof.
+  induction 1 as [EL HEL | EL B n0 REST bs HEL HB Hm Hn0 _ IH
+                  | EL B n0 L1 n1 SG SEP NEXT SEP' bs HEL EB HL1 Hn1 Hm1 HS Hn0 HlB Ha _ IH]; intros fuel Hf.
+  - destruct fuel as [|f]; [lia|]. cbn [blocks_f].
+    destruct (next_block_elines EL HEL [] (S (length EL))) as (fuel' & _ & E); [rewrite app_nil_r; lia|].
+    rewrite app_nil_r in E. rewrite E. destruct fuel'; reflexivity.
+  - destruct fuel as [|f]; [lia|]. cbn [blocks_f].
+    destruct (next_block_elines EL HEL (B ++ n0 :: REST) (S (length (EL ++ B ++ n0 :: REST)))) as (fuel' & Hf' & E); [lia|].
+    rewrite E, (next_block_single B n0 REST fuel' HB Hm Hn0 Hf'). f_equal. apply IH.
+    rewrite !app_length in Hf. cbn [length] in Hf. lia.
+  - destruct fuel as [|f]; [lia|]. cbn [blocks_f].
+    destruct (next_block_elines EL HEL (B ++ n0 :: SEP ++ NEXT) (S (length (EL ++ B ++ n0 :: SEP ++ NEXT)))) as (fuel' & Hf' & E); [lia|].
+    rewrite E, (next_block_multi L1 n1 SG B n0 SEP NEXT SEP' fuel' EB HL1 Hn1 Hm1 HS Hn0 HlB Ha Hf'). f_equal. apply IH.
+    pose proof (after_multi_len _ _ _ Ha) as Hle. rewrite !app_length in Hle. rewrite !app_length in Hf. cbn [length] in Hf.
+    rewrite !app_length in Hf. rewrite app_length. lia.
+Qed.
+
+Section Docs2.
+  Variable cfg : pcfg.
+  Hypothesis Hstrict : p_strict_escape cfg = false.
+
+  (* C01 at document level: a text without front matter fence whose tokens are laid out as the
+     printed blocks of d *)
+  Theorem events_layout U (text : str) (d : list block) ts bl :
+    parse_frontmatter cfg text = None -> lex_at U text 0 = Some ts ->
+    doc_toks ts bl -> Forall2 prints bl d -> Forall (fun b => block_ok cfg b = true /\ sec_trail_ok b) d ->
+    exists evs, events U cfg text = Done evs /\ map ev_proj evs = concat (map denote_block d).
+  Proof.
+    intros Hfm Hlex Hlay Hpr Hok. apply (events_print cfg Hstrict U text d ts Hfm Hlex); [|exact Hok].
+    unfold blocks. rewrite (blocks_doc ts bl Hlay) by lia. exact Hpr.
+  Qed.
+End Docs2.
